@@ -170,6 +170,13 @@ def gen_jobs(tier, seed):
                 for m in methods:
                     m["pos"], m["reqpos"] = [], 0
                 calls = [{"pos": [], "kw": {"k": b}} for b in NAMES]
+        if shape == 9:
+            # the keyword-only parameter under names the generated dispatcher also uses for itself
+            kn = ["k", "HANDLER0", "k", "FALLTHROUGH", "ARG0", "k", "MATCH0", "SUMMATION", "HANDLER", "p1", "p2", "INJECT"][(q // 10) % 12]
+            for m in methods:
+                m["kwn"] = [kn for _ in m["kwn"]]
+            for c in calls:
+                c["kw"] = {kn: v for v in c["kw"].values()}
         if q % 2 == 1:
             # the order in which argument classes are first seen must not matter
             calls = list(reversed(calls))
